@@ -15,15 +15,15 @@ import (
 )
 
 type SolveResult struct {
-	Obl     *Obligation
-	Status  string // proved, failed, unknown, error ; for ExpSat: proved == sat
-	Solver  string
-	Secs    float64
-	Output  string
-	File    string
-	Model   string
-	Size    int
-	Tried   []string
+	Obl       *Obligation
+	Status    string // proved, failed, unknown, error ; for ExpSat: proved == sat
+	Solver    string
+	Secs      float64
+	Output    string
+	File      string
+	Model     string
+	Size      int
+	Tried     []string
 	Candidate string // model of the quantifier-free weakening (candidate counterexample)
 }
 
@@ -40,7 +40,9 @@ var solvers = []solverSpec{
 	{"z3-4.8.12", func(f string, t int) []string { return []string{"/usr/bin/z3", fmt.Sprintf("-T:%d", t), f} }},
 }
 
-func (v *Verifier) smtText(o *Obligation, withModel bool) string { return v.smtTextKeep(o, withModel, nil) }
+func (v *Verifier) smtText(o *Obligation, withModel bool) string {
+	return v.smtTextKeep(o, withModel, nil)
+}
 
 func (v *Verifier) smtTextKeep(o *Obligation, withModel bool, keep map[int]bool) string {
 	var b strings.Builder
